@@ -155,6 +155,13 @@ CLAIMED = {
             '(2360 patterns); Logic::mkDistinct is evaluated the same way on arguments of a value sort (two constants, two variables, lists up to length 4). Arithmetic constructors, '
             'equality on other sorts and select/store are value-level and not decided.',
             'static analysis: abstract evaluation of the constructors\' decision structure over a finite domain of argument patterns + truth table (no code is compiled or run)', ''),
+    'C13': ('other',
+            'Static, one preprocessing step only: the learnt transitivity facts. Logic::learnEqTransitivity looks at its input only through isOr / isAnd / isEquality, argument counts and '
+            'identity of eight variable positions; every disjunction of two or three disjuncts whose first two are conjunctions of two or three equalities over four variables (up to '
+            'renaming; all 20736 variable placements in the thorough tier) is pushed through the function by an abstract evaluator over the mini-AST, and the returned formula must be '
+            'valid in the theory of equality under every equality pattern of the four variables; the only caller conjoins the result to the input. Equality substitution, ITE / div-mod / '
+            'distinct elimination, purification and Boolean flattening are value-level rewrites and are not decided.',
+            'static analysis: abstract evaluation of the pattern matcher over a finite domain of input patterns + exhaustive validity check over equality patterns (no code is compiled or run)', ''),
     'C15': ('other',
             'Static: (1) UB-obligation engine - every compiler-inserted sanitizer obligation (signed overflow, narrowing, sign change, float cast) in FastRational.h/.cc is '
             'either deleted by LLVM -O2 range analysis or listed in a table with a written justification and the guards it relies on (guards must still be present); the IR '
@@ -179,7 +186,6 @@ NOT_APPLICABLE = {
     'C08': 'implication/unsat/vocabulary conditions on formulas built from a runtime proof; only a frozen-fragment match could see the labelling rules, which would fire on behaviour-preserving edits',
     'C11': 'validity in the theory of clauses built from runtime solver state; the one shape-visible clause (positive Farkas coefficients) is claimed under C26',
     'C12': 'propositional consequence of a runtime clause database (RUP) cannot be decided from source shape',
-    'C13': 'semantic equisatisfiability of rewrites over all terms needs evaluation or solving, a different technique family',
     'C30': 'termination needs ranking arguments for CDCL with restarts, Bland pivoting and lookahead; polling a stop flag is not termination',
 }
 
